@@ -121,8 +121,9 @@ type TraceOp struct {
 
 // Fault describes an injected failure.
 type Fault struct {
-	Short int   // >=0: short write of this many bytes (with io.ErrShortWrite)
-	Err   error // error to return
+	Short       int   // >=0: short write of this many bytes (with io.ErrShortWrite)
+	SilentShort bool  // the short write reports no error at all
+	Err         error // error to return
 }
 
 var ErrInjected = errors.New("verif-injected-io-error")
@@ -149,6 +150,8 @@ type FS struct {
 	hitKinds map[string]int
 
 	DelayAfterFault time.Duration // see vfile.WriteAt
+	ClassifySites   bool          // record the class of every faultable operation (baseline runs)
+	SiteClasses     []string
 	lastFault       time.Time
 	delays          int
 	Perturb    func() // optional schedule perturbation before persister-side operations
@@ -304,6 +307,20 @@ func (fs *FS) pre(kind, name string, off int64, data []byte, flags int) (int, *F
 	if !h && kind != "close" && kind != "read" {
 		idx := fs.opIndex
 		fs.opIndex++
+		if fs.ClassifySites {
+			cls := kind
+			if kind == "write" {
+				switch {
+				case off == 0:
+					cls = "header"
+				case isFooterWrite(data):
+					cls = "footer"
+				default:
+					cls = "data"
+				}
+			}
+			fs.SiteClasses = append(fs.SiteClasses, cls)
+		}
 		if fs.FaultFn != nil {
 			f = fs.FaultFn(idx, kind, name, len(data))
 			if f != nil {
@@ -415,6 +432,9 @@ func (v *vfile) WriteAt(p []byte, off int64) (int, error) {
 				v.f.WriteAt(p[:n], off)
 			}
 			v.fs.post(ti, "write")
+			if f.SilentShort {
+				return n, nil // fewer bytes than asked and no error: the caller has to compare
+			}
 			return n, io.ErrShortWrite
 		}
 		return 0, f.Err
